@@ -25,8 +25,8 @@ struct Dec {
 };
 
 struct IType { const char* tok; int bits; bool sgn; };
-static const IType ITYPES[8] = { {"i8", 8, true}, {"u8", 8, false}, {"i16", 16, true}, {"u16", 16, false}, {"i32", 32, true}, {"u32", 32, false}, {"i64", 64, true}, {"u64", 64, false} };
-static const int NITYPES = 8;
+static const IType ITYPES[10] = { {"i8", 8, true}, {"u8", 8, false}, {"i16", 16, true}, {"u16", 16, false}, {"i32", 32, true}, {"u32", 32, false}, {"i64", 64, true}, {"u64", 64, false}, {"ll", 64, true}, {"ull", 64, false} };   // long long / unsigned long long are distinct types from int64_t / uint64_t on LP64
+static const int NITYPES = 10;
 // mathematical value of static_cast<T>(pattern)
 static inline i128 tval(const IType& t, int64_t pat)
 {
